@@ -534,3 +534,66 @@ def _pushdown_E(rank_out, new_axes):
 PE0 = _pushdown_E(2, (0,))
 PE1 = _pushdown_E(3, (1,))
 PE02 = _pushdown_E(3, (0, 2))
+
+
+# ---------------------------------------------------------------------------
+# A slice pushed through a transpose (C02): the input is sliced with the index permuted back
+# ---------------------------------------------------------------------------
+TR = "dask_array/manipulation/_transpose.py"
+
+
+def _ext_new_collection(ex, st, args, kwargs, node):
+    """new_collection(expr): the collection of that expression"""
+    o = ex.fresh_value("obj:Coll", "coll")
+    o.fields["of"] = args[0]
+    return o
+
+
+def _ext_coll_getitem(ex, st, args, kwargs, node):
+    """collection[index]: a collection whose expression is the basic slice of the operand with that index (the slice node
+    itself is under contract: SliceSlicesIntegers / _slice_1d)"""
+    base, key = args
+    sl = ex.fresh_value("obj:Sliced", "sliced")
+    sl.fields["array"] = base.fields["of"]
+    sl.fields["index"] = key
+    o = ex.fresh_value("obj:Coll", "coll")
+    o.fields["of"] = sl
+    o.fields["expr"] = sl
+    return o
+
+
+def _slice_T(axes):
+    rank = len(axes)
+
+    @contract(f"{TR}::Transpose._accept_slice", spec="slices-axes" + "".join(map(str, axes)), props=["C02", "C13"])
+    class transpose_accept_slice:
+        """Slice(Transpose(x, axes), index) with a full-length index of slices -> Transpose(Slice(x, inner), axes) where
+        inner[axes[i]] == index[i] for every output axis i: the input is sliced with the index permuted back, and the same
+        axes are applied afterwards"""
+        params = {"self": "obj:Transpose", "slice_expr": "obj:SliceExpr"}
+        result = "obj:Transpose"
+        fields = {"Transpose": {"array": "obj:Arr", "axes": "const", "ndim": "const"}, "Arr": {},
+                  "SliceExpr": {"index": "tup:" + ",".join(["slice"] * rank)}, "Coll": {}, "Sliced": {}}
+        consts = {"self.axes": tuple(axes), "self.ndim": rank}
+        externals = {"new_collection": _ext_new_collection, "Coll.__getitem__": _ext_coll_getitem, "Transpose": _ext_transpose}
+
+        def requires(self, slice_expr):
+            return True
+
+        def ensures(result, self, slice_expr):
+            sl = result.fields["array"]
+            out = {"same-axes": tuple(S.val(a) if not isinstance(a, int) else a for a in _items(result.fields["axes"])) == tuple(axes),
+                   "slice-of-the-same-input": sl.fields.get("array") is self.get("array")}
+            inner = sl.fields["index"]
+            for i, ax in enumerate(axes):
+                out[f"input-axis-{ax}-gets-the-index-of-output-axis-{i}"] = S.slice_eq(S.item(inner, ax), S.item(slice_expr.get("index"), i))
+            return out
+
+    transpose_accept_slice.__name__ = "transpose_accept_slice_" + "".join(map(str, axes))
+    return transpose_accept_slice
+
+
+ST10 = _slice_T((1, 0))
+ST201 = _slice_T((2, 0, 1))
+ST120 = _slice_T((1, 2, 0))
+ST021 = _slice_T((0, 2, 1))
